@@ -233,6 +233,10 @@ def show(e, depth=0):
         return "len(%s)" % show(e[1], d)
     if k == "downcast":
         return "(%s as %s)" % (show(e[1], d), e[2])
+    if k == "init":
+        return "%s@entry" % e[1]
+    if k == "phi":
+        return "phi(%s)" % ", ".join(show(x, d) for x in e[3])
     return "%s" % (e,)
 
 
@@ -485,6 +489,10 @@ def canon(e, depth=0):
         return "(%s as %s)" % (canon(e[1], d), e[2])
     if k == "repeat":
         return "[%s;%s]" % (canon(e[1], d), e[2])
+    if k == "init":
+        return "init:%s" % e[1]
+    if k == "phi":
+        return "phi(%s)" % ",".join(canon(x, d) for x in e[3])
     return str(e)
 
 
@@ -558,6 +566,8 @@ def match(e, pat, env=None):
         return is_param(e, pat[1])
     if k == "path":
         return is_path(e, pat[1], pat[2])
+    if k == "init":
+        return e[0] == "init" and e[1] == pat[1]
     if k == "v":
         return e[0] == "const" and e[1] == pat[1]
     if k == "named":
